@@ -137,16 +137,28 @@ type evO struct {
 
 var errStore = errors.New("verif: store rejects")
 
+// cancelShapedErr: a store failure that is also a cancellation (errors.Is says yes to both).
+type cancelShapedErr struct{}
+
+func (cancelShapedErr) Error() string   { return "store: gave up: context canceled" }
+func (cancelShapedErr) Is(t error) bool { return t == context.Canceled || t == errStore }
+
 type oStore struct {
 	inner    *eventbus.MemoryStore
 	outcomes []int
 	calls    int
+	// cancelShaped: failures also wrap context.Canceled (what a store that honours its
+	// context returns under a cancelled publish)
+	cancelShaped bool
 }
 
 func (s *oStore) Append(ctx context.Context, e *eventbus.Event) (eventbus.Offset, error) {
 	i := s.calls
 	s.calls++
 	if i < len(s.outcomes) && s.outcomes[i] == 1 {
+		if s.cancelShaped {
+			return "", cancelShapedErr{}
+		}
 		return "", errStore
 	}
 	return s.inner.Append(ctx, e)
@@ -166,6 +178,7 @@ func harnessC20OTel() {
 	persist := vBool()
 	st := &oStore{inner: eventbus.NewMemoryStore()}
 	if persist {
+		st.cancelShaped = vBool()
 		opts = append(opts, eventbus.WithStore(st))
 		if vBool() {
 			opts = append(opts, eventbus.WithPersistenceTimeout(time.Second))
